@@ -71,6 +71,7 @@ TRANSLATORS = {
     "WireGen.v": ("tr/wire.py", ["varlink/src/lib.rs"]),
     "SetGen.v": ("tr/set.py", ["varlink/src/lib.rs"]),
     "PoolGen.v": ("tr/pool.py", ["varlink/src/server.rs"]),
+    "GrammarGen.v": ("tr/grammar.py", ["varlink_parser/src/varlink_grammar.rs", "varlink_parser/src/lib.rs"]),
 }
 
 
@@ -157,7 +158,12 @@ def build_driver():
     ml = os.path.join(BUILD, "ml")
     os.makedirs(ml, exist_ok=True)
     with Lock("driver"):
-        ok, log = coq_make(["theories/Script.vo"] + EXTRA_EXTRACT_DEPS)
+        ext = open(os.path.join(COQ, "extract", "Extract.v"), encoding="utf-8").read()
+        targets = []
+        for m in re.finditer(r"From (VL|VLG) Require Import ([^.]*)\.", ext):
+            for mod in m.group(2).split():
+                targets.append(("theories/" if m.group(1) == "VL" else "gen/") + mod + ".vo")
+        ok, log = coq_make(targets + EXTRA_EXTRACT_DEPS)
         if not ok:
             return False, log
         h = hashlib.sha256()
